@@ -4,6 +4,7 @@
 import ConnectModel.Envelope
 import ConnectProofs.Lemmas.Envelope
 import ConnectProofs.C01
+import ConnectModel.Options
 
 namespace ConnectModel.C09
 open ConnectModel
@@ -239,6 +240,33 @@ theorem limit_plus_one_wraps_at_max : ((BitVec.ofInt 64 (2 ^ 63 - 1)) + 1#64).to
 theorem limit_sites_guarded : ∀ w ∈ Gen.limitReaderPlusOneSites, w.2 = 0 := by decide
 
 example : Gen.limitReaderPlusOneSites.length = 2 := by decide
+
+/-! ### which N? - the last `WithReadMaxBytes` given -/
+
+mutual
+theorem SOpt.apply_eq_last : ∀ (o : SOpt) (cur : Nat), o.apply cur = (o.values.getLast?).getD cur
+  | .readMax n, cur => by simp [SOpt.apply, SOpt.values]
+  | .group os, cur => by simpa [SOpt.apply, SOpt.values] using SOpt.applyList_eq_last os cur
+  | .other, cur => by simp [SOpt.apply, SOpt.values]
+theorem SOpt.applyList_eq_last : ∀ (os : List SOpt) (cur : Nat),
+    SOpt.applyList os cur = ((SOpt.valuesList os).getLast?).getD cur
+  | [], cur => by simp [SOpt.applyList, SOpt.valuesList]
+  | o :: os, cur => by
+    simp only [SOpt.applyList, SOpt.valuesList]
+    rw [SOpt.applyList_eq_last os, SOpt.apply_eq_last o cur]
+    cases hv : SOpt.valuesList os with
+    | nil => simp
+    | cons v vs => simp [List.getLast?_append]
+end
+
+/-- **read_limit_last_wins**: however the options are grouped and nested, the limit in force is the
+    value of the last `WithReadMaxBytes` in declaration order (and the default, none, if there
+    is none): an earlier, tighter limit does not survive a later override, and `0` lifts it. -/
+theorem read_limit_last_wins (os : List SOpt) :
+    SOpt.applyList os 0 = ((SOpt.valuesList os).getLast?).getD 0 := SOpt.applyList_eq_last os 0
+
+example : SOpt.applyList [.group [.readMax 64, .other], .group [.group [.readMax 0]]] 0 = 0 := by decide
+example : SOpt.applyList [.readMax 64, .group [.readMax 4096]] 0 = 4096 := by decide
 
 /-! non-vacuity: N = 2; a 3-byte frame is rejected, a lying prefix allocates nothing -/
 example : ((envRead 2).run takeExact { flat := [0,0,0,0,3,1,2,3,9], tail := .eof }).1 =
